@@ -145,6 +145,11 @@ int main(int argc, char **argv)
                                         snprintf(line, sizeof line, "AT+A=%s,%s,%s\n", f[0], f[1], f[2]);
                                         if (run(line)) goto out;
                                 }
+                                if (ty[p] == 4) {
+                                        f[p] = "\"sixsix\"";      /* exactly data_size characters between the quotes */
+                                        snprintf(line, sizeof line, "AT+A=%s,%s,%s\n", f[0], f[1], f[2]);
+                                        if (run(line)) goto out;
+                                }
                                 f[p] = "";
                                 snprintf(line, sizeof line, "AT+A=%s,%s,%s\n", f[0], f[1], f[2]);
                                 if (run(line)) goto out;
